@@ -11,9 +11,9 @@ or raises once recomputation is exhausted.
 `run p os` is the time loop of `run_time_dependent_model` on the outcome tape `os`
 (`Outcome.converged k` / `Outcome.failed`), started from `TimeManager(...)`; `(run p os).accepted`
 lists the accepted times, most recent first.  `Admissible p` = accepted by the constructor, adaptive,
-`t₀ + dt₀ ≤ schedule[1]`, `0 ≤ rtol`, `0 ≤ atol`, and `0 < dt_min` or positive factors (the constructor
-checks neither of the last three; without them the statements are false: a negative tolerance makes
-`dt = 0`, `dt_min = 0` with `recomp_factor = 0` stalls the clock).
+`t₀ + dt₀ ≤ schedule[1]`, `rtol ≤ 1 ∨ 0 ≤ atol`, and `0 < dt_min` or positive factors (the constructor
+checks neither of the last two; without the last the statements are false: `dt_min = 0` with
+`recomp_factor = 0` stalls the clock at `dt = 0`).
 "A scheduled time `y` is hit" is `HitBy`: some accepted time `a` has `np.isclose(a, y, rtol, atol)` —
 the code's own notion (it ends the loop on `isclose(time, final)`), exact equality when the step was
 cut to land on `y`.
@@ -127,12 +127,91 @@ theorem only_documented_errors (p : Params) (A : Admissible p) (os : List Outcom
   · intro e h; rw [h] at this; exact this
   · intro e h; rw [h] at this; exact this
 
+/-- Liveness (for a positive `dt_min`): a tape of converged steps ends the run regularly after at most
+    `(final − t₀)/dt_min + (len(schedule) − 1)` steps — each accepted step either advances the clock by
+    at least `dt_min` or lands on the next scheduled time. -/
+theorem all_converged_finishes (p : Params) (A : Admissible p) (hmin : 0 < p.dtMin) (os : List Outcome)
+    (hall : AllConverged os)
+    (hlen : (p.timeFinal - p.timeInit) + p.dtMin * ((p.schedule.length - 1 : Nat) : Rat)
+              ≤ p.dtMin * (os.length : Rat)) :
+    (run p os).status = .finished := by
+  have F := facts_of_admissible A
+  have hg0 := good_start F
+  by_cases h0 : (startRun p).status = .running
+  · rcases converged_run_budget F hmin os hall _ hg0 h0 with h | ⟨h, hb⟩
+    · exact h
+    · exfalso
+      have hg := (good_run F os).2.2
+      have h' : (run p os).status = .running := h
+      rw [h'] at hg
+      have hge := budget_ge F hmin (show Inv p (run p os).tm (run p os).accepted from hg)
+      have hb0 : budget p (startRun p).tm
+          = (p.timeFinal - p.timeInit) + p.dtMin * ((p.schedule.length - 1 : Nat) : Rat) := rfl
+      have : budget p (run p os).tm + p.dtMin * (os.length : Rat) ≤ budget p (startRun p).tm := hb
+      grind
+  · have h1 : (startRun p).status = .finished := by
+      have : (startRun p).status = statusOf p (init p) := rfl
+      rw [this] at h0 ⊢
+      unfold statusOf at h0 ⊢
+      split at h0
+      · simp_all
+      · exact absurd rfl h0
+    unfold run
+    rw [runFrom_not_running p _ _ h0]; exact h1
+
+/-- … and then every scheduled time has been hit. -/
+theorem all_converged_hits_every_scheduled (p : Params) (A : Admissible p) (hmin : 0 < p.dtMin)
+    (os : List Outcome) (hall : AllConverged os)
+    (hlen : (p.timeFinal - p.timeInit) + p.dtMin * ((p.schedule.length - 1 : Nat) : Rat)
+              ≤ p.dtMin * (os.length : Rat)) :
+    ∀ y ∈ p.schedule, HitBy p (run p os).accepted y :=
+  hits_every_scheduled p A os (all_converged_finishes p A hmin os hall hlen)
+
 /-- `time_index` counts the accepted steps. -/
 theorem time_index_counts_accepted (p : Params) (A : Admissible p) (os : List Outcome)
     (h : (run p os).status = .running) : (run p os).tm.timeIndex + 1 = (run p os).accepted.length := by
   have := (good_run (facts_of_admissible A) os).2.2
   rw [h] at this
   exact Inv.ti this
+
+/-! ### constant time step (`constant_dt=True`): outside the property statement, kept for completeness -/
+
+/-- With a constant step the step never changes and the accepted times are `t₀ + k·dt_init`
+    (`accepted` is most-recent-first). -/
+theorem constant_dt_times (p : Params) (hc : p.constantDt = true) (os : List Outcome) (hall : AllConverged os) :
+    (run p os).tm.dt = p.dtInit ∧
+    ∀ i (h : i < (run p os).accepted.length),
+      (run p os).accepted[i] = p.timeInit + (((run p os).accepted.length - 1 - i : Nat) : Rat) * p.dtInit := by
+  obtain ⟨⟨n, hacc, _⟩, hdt, _⟩ := cinv_run hc os hall _ (cinv_start p)
+  refine ⟨hdt, ?_⟩
+  have hacc' : (run p os).accepted = arith p.timeInit p.dtInit n := hacc
+  rw [hacc']
+  intro i h
+  rw [arith_getElem, arith_length]
+  congr 3
+
+/-- With a constant step a failed nonlinear solve ends the run with an error; nothing is recomputed. -/
+theorem constant_dt_failure_raises (p : Params) (hc : p.constantDt = true) (r : Run) (h : r.status = .running) :
+    (stepRun p r .failed).status = .raised .constantDtFailed ∧ (stepRun p r .failed).accepted = r.accepted := by
+  obtain ⟨tm, acc, st⟩ := r
+  cases h
+  simp [stepRun, hc]
+
+/-- PARTIAL.  Full statement wanted: "if the constructor accepts a constant step, the loop hits every
+    scheduled time".  Proved: if every scheduled time is within tolerance of some `t₀ + k·dt_init`
+    (hypothesis `H`, which is what the constructor's compatibility check is meant to establish) and the
+    loop has ended, every scheduled time has been hit — also those whose `k` lies beyond the step at
+    which `final_time_reached` stopped the loop.  Missing: `Valid p → H`.  The constructor compares the
+    NUMBER of simulated times close to a neighbouring scheduled time with `len(schedule)`
+    (`is_schedule_in_simulated_times`), with the tolerance taken relative to the simulated time; for
+    tolerances that are not small against `dt_init` and the schedule gaps this count can agree while a
+    scheduled time is matched twice and another not at all, so `H` is not implied in general. -/
+theorem constant_dt_hits_partial (p : Params) (hv : Valid p) (hc : p.constantDt = true)
+    (htol : p.rtol ≤ 1 ∨ 0 ≤ p.atol)
+    (H : ∀ y ∈ p.schedule, ∃ k : Nat, isclose p.rtol p.atol (p.timeInit + (k : Rat) * p.dtInit) y = true)
+    (os : List Outcome) (hall : AllConverged os) (hfin : (run p os).status = .finished) :
+    ∀ y ∈ p.schedule, HitBy p (run p os).accepted y :=
+  constant_hits hv hc htol H os hall hfin
 
 /-! ### non-vacuity: concrete parameters and histories -/
 
@@ -164,6 +243,29 @@ example : (run pF2 (List.replicate 11 .failed)).status = .raised .dtMinReached
 /-- a step shorter than `dt_min` occurs, landing on a scheduled time: dt_min = 1/4 > 1/5 -/
 example : (run { pF2 with dtMin := 1/4 } [.converged 5, .converged 5]).tm.dt = 1/5
     ∧ (run { pF2 with dtMin := 1/4 } [.converged 5, .converged 5]).tm.aboutToHit = true := by
+  decide +kernel
+
+/-- negative tolerances are admissible (`rtol ≤ 1`): only exact equality counts as close, and the run
+    still ends on the final time with every scheduled time accepted -/
+example : Admissible { pF2 with rtol := -1/1000, atol := -1 } ∧
+    (run { pF2 with rtol := -1/1000, atol := -1 } (List.replicate 4 (.converged 5))).accepted = [6/5, 1, 1/2, 0] ∧
+    (run { pF2 with rtol := -1/1000, atol := -1 } (List.replicate 4 (.converged 5))).status = .finished := by
+  decide +kernel
+
+/-- liveness premise is satisfiable: dt_min = 1/4, seven converged steps suffice for [0, 1, 6/5] -/
+example : Admissible { pF2 with dtMin := 1/4 } ∧ AllConverged (List.replicate 7 (Outcome.converged 5)) ∧
+    (({ pF2 with dtMin := 1/4 } : Params).timeFinal - ({ pF2 with dtMin := 1/4 } : Params).timeInit)
+      + (1/4 : Rat) * ((3 - 1 : Nat) : Rat) ≤ (1/4 : Rat) * ((List.replicate 7 (Outcome.converged 5)).length : Rat) := by
+  refine ⟨by decide +kernel, ?_, by decide +kernel⟩
+  intro o ho
+  exact ⟨5, List.eq_of_mem_replicate ho⟩
+
+/-- constant step 1/4 on the schedule [0, 1/2, 1]: valid, four steps, all scheduled times are accepted times -/
+def pConst : Params :=
+  { pF2 with schedule := [0, 1/2, 1], dtInit := 1/4, constantDt := true }
+
+example : Valid pConst ∧ (run pConst (List.replicate 6 (.converged 3))).accepted = [1, 3/4, 1/2, 1/4, 0]
+    ∧ (run pConst (List.replicate 6 (.converged 3))).status = .finished := by
   decide +kernel
 
 end PorepyVerif.C09
